@@ -1,8 +1,10 @@
 """C08 — a rejected configuration names the resource and line that caused the rejection"""
-from .. import cfggen, cfgrun, cfgstream, core, schemafam as F
+from .. import cfggen, cfgrun, cfgstream, core, cutter, schemafam as F
 
 RULE = ("accepted texts of the schema family, each with exactly one injected fault of a listed kind at a random line "
-        "(culprit line known by construction; both spellings of an empty section); non-trivial = the fault was applicable "
+        "(culprit line known by construction; both spellings of an empty section), and the same text with 1..3 "
+        "balanced ranges moved into %include fragments so that the culprit sits in the main resource or in a fragment at "
+        "any include depth (expected: the line number within that resource and that resource's URL); non-trivial = the fault was applicable "
         "and the text is rejected; distinct by (schema, text)")
 
 KINDS = ["junk", "directive", "undefined-subst", "malformed-subst", "unknown-key", "repeat-key", "bad-key", "bad-value",
@@ -234,6 +236,19 @@ def run(ctx):
             c.lines, c.faults, c.overrides = lines, [kind], ()
             c.meta = {"culprit": culprit, "kinds": exp, "extra": extra, "kind": kind}
             cases.append(c)
+            if rng.random() < 0.6:
+                # the same faulty text with 1..3 balanced ranges moved into %include fragments: the culprit line is
+                # then a line of the main resource or of a fragment (which counts its own lines), at any include depth
+                main, files, placements, where_is = cutter.cut_tracked(rng, lines, rng.choice([1, 2, 3]))
+                if placements and (culprit - 1) in where_is:
+                    d = cfgstream.Case()
+                    d.sd, d.real, d.elab, d.hnames = sd, real, elab, hn
+                    d.lines, d.files, d.faults, d.overrides = main, files, [kind, "included"], ()
+                    rel, ln = where_is[culprit - 1]
+                    d.meta = {"culprit": ln, "culprit_rel": rel, "kinds": exp, "extra": extra, "kind": kind,
+                              "main": "m/main.conf", "inline": lines, "inline_culprit": culprit}
+                    cases.append(d)
+                    ctx.count("culprit-in:" + ("main" if rel == "m/main.conf" else "fragment"))
     cfgstream.evaluate(ctx, cases)
     for c in cases:
         kind = c.meta["kind"]
@@ -260,13 +275,19 @@ def run(ctx):
                 and c.model[2] is not None):
             ctx.count("culprit-imprecise:" + kind)
             continue
-        if out[2] != c.meta["culprit"] or out[3] != cfgstream.URL:
+        want_url = cfgstream.URL
+        if c.files is not None:
+            import urllib.parse
+            import urllib.request
+            root_url = c.url[: -len(urllib.request.pathname2url("m/main.conf"))]
+            want_url = urllib.parse.urljoin(root_url, urllib.request.pathname2url(c.meta["culprit_rel"]))
+        if out[2] != c.meta["culprit"] or out[3] != want_url:
             form = "empty-form" if any(l.strip().endswith("/>") and i + 1 == c.meta["culprit"] for i, l in enumerate(c.lines)) else "line"
             sig = "C08:%s:%s:%s" % (kind if form == "line" else "any", out[1], "no-position" if out[2] is None else "wrong-position")
             if form == "empty-form":
                 sig = "C08:empty-form:%s:%s" % (out[1], "no-position" if out[2] is None else "wrong-position")
             ctx.violate("fault %s at line %d of %s: error %s carries lineno=%r url=%r" % (
-                kind, c.meta["culprit"], cfgstream.URL, out[1], out[2], out[3]),
+                kind, c.meta["culprit"], want_url, out[1], out[2], out[3]),
                 dict(c.replay(), culprit=c.meta["culprit"], impl=out), signature=sig)
         elif out[1] == "conversion" and c.meta["extra"].get("value") is not None and out[4] != c.meta["extra"]["value"]:
             ctx.violate("conversion error does not carry the offending text: %r vs %r" % (out[4], c.meta["extra"]["value"]),
